@@ -20,8 +20,11 @@ CONSTANTS
   Kinds = {}
   Keys = {1}
   SrcOpts = {}
+  EvKinds = {"ps"}
   MaxBatch = 3
   Errnos = {}
+  TbVals = {}
+  TickVals = {}
   Targets = {"A", "B"}
   AutoVals = {TRUE}
   Senders = {"A"}
